@@ -305,6 +305,22 @@ def item_zoo():
             add('C17|into-diag|%s|%s' % (tk, sk), '#[derive(Educe)]\n#[educe(%s)]\n%s\n' % (tl, decl), {'target': t, 'situation': sk})
         add('C17|into-diag|%s|target-twice' % tk, "#[derive(Educe)]\n#[educe(Into(%s), Into(%s))]\nstruct Ty<'a> { a: %s, c: &'a u32 }\n" % (t, t, t), {'target': t, 'situation': 'target-twice'})
         add('C17|into-diag|%s|target-twice-lines' % tk, "#[derive(Educe)]\n#[educe(Into(%s))]\n#[educe(Into(%s))]\nstruct Ty<'a> { a: %s, c: &'a u32 }\n" % (t, t, t), {'target': t, 'situation': 'target-twice-lines'})
+    # literal default expressions in every lexical form (radix prefixes, separators, exponents, suffixes, negation, non-numeric literals) on every primitive field type, in the three spellings:
+    # whatever the literal adjustment does with them, the macro has to terminate with an expansion or a diagnostic
+    lits = ['0x10', '0o17', '0b101', '0xFF_u8', '0x1_0', '1_000', '-0x10', '-0b1', '1e3', '1E-2', '1_0.5', '2.', '1f32', '-1e3f64', '0xfu16', '0u128', '340282366920938463463374607431768211455',
+            '-170141183460469231731687303715884105728', "'c'", "b'c'", '"s"', 'b"s"', 'true', '1.0e400', '0x']
+    ptys = ['u8', 'i8', 'u16', 'i64', 'u128', 'i128', 'usize', 'isize', 'f32', 'f64', 'char', 'bool', "&'static str", 'W']
+    for li, lit in enumerate(lits):
+        for ty in ptys:
+            for sp_i, sp in enumerate(('Default = %s', 'Default(expression = %s)', 'Default(expression(%s))')):
+                if sp_i and (li + len(ty)) % 3 != sp_i:
+                    continue
+                for hk, host in (('sn', 'struct Ty { a: u8, #[educe(%s)] z: %s }'), ('en', 'enum Ty { A, #[educe(Default)] B(#[educe(%s)] %s) }'), ('un', 'union Ty { #[educe(%s)] z: %s, b: u8 }')):
+                    if hk != 'sn' and sp_i:
+                        continue
+                    if hk == 'un' and ty in ('W',):
+                        continue
+                    add('C17|default-literal|%d|%s|%d|%s' % (li, ty, sp_i, hk), '#[derive(Educe)]\n#[educe(Default)]\n%s\n' % (host % (sp % lit, ty)), {'literal': lit, 'field_type': ty, 'spelling': sp % lit})
     # explicit bound modes of every trait on parameter lists with inline bounds, defaults, attributes and const parameters (code paths that turn parameters into predicates)
     gens2 = dict(gens)
     gens2.update({'inline-bounds': ('<K: ::core::fmt::Display + Copy, V: Copy = u8>', ''), 'attr-param': ('<#[allow(unused)] T: Copy, #[cfg(all())] U: Copy>', ''),
